@@ -401,8 +401,13 @@ func (c *ctx) caseM(b *batch, l *Loaded, name string) error {
 		fmt.Sprintf("specenc %d %s", id, v.OrderedString()),
 		fmt.Sprintf("unmarshal %d %s %s", id, dh, zero),
 		fmt.Sprintf("specdec %d %s %s", id, dh, zero),
+		fmt.Sprintf("wt 1 %d %s", id, v.OrderedString()),
 	}
 	if err := b.add(pending{ops: ops, verify: func(ans []string) {
+		if ans[4] != "1" {
+			// the theorems' hypothesis must cover what the generator produces (non-vacuity)
+			c.disagree(Disagreement{Kind: "model!=spec", Check: "generated-value-is-welltyped", Case: cs(nil), Got: map[string]string{"wtMsg": ans[4]}})
+		}
 		if ans[0] != dh && !c.sameHex(l, name, ans[0], data) {
 			c.disagree(Disagreement{Kind: "real!=model", Check: "marshal", Case: cs(nil), Got: map[string]string{"model": short(ans[0])}})
 		}
